@@ -6,7 +6,7 @@ print('| seed | breaks | needs (short) | caught by | by its own check |')
 print('|---|---|---|---|---|')
 for d in sorted(glob.glob('/verif/seeded/*/')):
     n = os.path.basename(d.rstrip('/'))
-    tag = 'r5' if '-r5' in n else 'r4' if '-r4' in n else ('r3' if '-r3' in n else ('r2' if '-r2' in n else 'r1'))
+    tag = 'r6' if '-r6' in n else 'r5' if '-r5' in n else 'r4' if '-r4' in n else ('r3' if '-r3' in n else ('r2' if '-r2' in n else 'r1'))
     if tag != rnd:
         continue
     m = json.load(open(d + 'meta.json'))
